@@ -72,8 +72,24 @@ func runC12(c *Ctx) {
 		c.Count("underscore_g_workspaces", 1)
 		checkC12WS(c, sw, fmt.Sprintf("c12g%d", i))
 	})
+	// lane: unannotated variables whose value comes, through an assignment, a call or a field access, from an annotated
+	// symbol of the other locality (a global fed from an annotated local and vice versa)
+	nA := c.N(150, 3000)
+	parallel(nA, 14, func(i int) {
+		r := root.Fork(uint64(7000000 + i))
+		files := c12AnnoFiles(r)
+		sw, ok := ScopeWSFromFiles(files)
+		if !ok {
+			c.Inconclusive("harness inconsistency: annotated workspace not valid for the reference front end")
+			return
+		}
+		c.Eval(1)
+		c.Count("annotated_chain_workspaces", 1)
+		checkC12WS(c, sw, fmt.Sprintf("c12a%d", i))
+	})
 	c.Set("testdata_dirs", tdirs)
 	c.Finish("generated workspaces as in C05, workspaces in which globals are read and written as _G.name while same-named locals, parameters and loop variables shadow them, "+
+		"workspaces in which unannotated locals / globals take their value from annotated symbols of the other locality (assignment, call of a function with ---@return, ---@field access), "+
 		"plus every directory of luahelper-lsp/testdata; for every identifier token the four answers "+
 		"(definition, references, documentHighlight, hover) are cross-compared (clauses a-d); no external oracle. distinct_nontrivial = distinct "+
 		"(file text, identifier token) whose definition or references answer was non-empty", 300)
@@ -449,5 +465,49 @@ func c12GFiles(r *Rng) map[string]string {
 	var b strings.Builder
 	gen(&b, "", 0, &k, map[string]bool{})
 	files["gb.lua"] = b.String()
+	return files
+}
+
+// c12AnnoFiles: annotated locals / globals / functions and unannotated variables fed from them.
+func c12AnnoFiles(r *Rng) map[string]string {
+	var sb strings.Builder
+	k := r.Intn(1000)
+	cls := fmt.Sprintf("Pt%d", k)
+	fmt.Fprintf(&sb, "---@class %s\n---@field px number\n---@field py string\nlocal %sProto = {}\n", cls, cls)
+	// annotated sources: one local, one global, functions with ---@return of either locality
+	fmt.Fprintf(&sb, "---@type %s\nlocal srcLoc%d = {}\n", cls, k)
+	fmt.Fprintf(&sb, "---@type %s\nSrcGlob%d = {}\n", cls, k)
+	fmt.Fprintf(&sb, "---@return %s\nlocal function mkLoc%d() return srcLoc%d end\n", cls, k, k)
+	fmt.Fprintf(&sb, "---@return %s\nfunction MkGlob%d() return SrcGlob%d end\n", cls, k, k)
+	srcs := []string{fmt.Sprintf("srcLoc%d", k), fmt.Sprintf("SrcGlob%d", k), fmt.Sprintf("mkLoc%d()", k), fmt.Sprintf("MkGlob%d()", k),
+		fmt.Sprintf("srcLoc%d.px", k), fmt.Sprintf("SrcGlob%d.py", k), fmt.Sprintf("mkLoc%d().px", k)}
+	var names []string
+	n := r.Range(3, 8)
+	for i := 0; i < n; i++ {
+		src := r.Pick(srcs)
+		if len(names) > 0 && r.Chance(1, 4) {
+			src = r.Pick(names) // a chain: fed from an earlier fed variable
+		}
+		var nm string
+		if r.Bool() {
+			nm = fmt.Sprintf("fedLoc%d_%d", k, i)
+			fmt.Fprintf(&sb, "local %s = %s\n", nm, src)
+		} else {
+			nm = fmt.Sprintf("FedGlob%d_%d", k, i)
+			fmt.Fprintf(&sb, "%s = %s\n", nm, src)
+		}
+		names = append(names, nm)
+	}
+	sb.WriteString("print(" + strings.Join(names, ", ") + ")\n")
+	files := map[string]string{"anno.lua": sb.String()}
+	// the globals are also read from a second file
+	var other strings.Builder
+	for _, nm := range names {
+		if strings.HasPrefix(nm, "FedGlob") {
+			fmt.Fprintf(&other, "print(%s)\n", nm)
+		}
+	}
+	fmt.Fprintf(&other, "print(SrcGlob%d, MkGlob%d())\n", k, k)
+	files["other.lua"] = other.String()
 	return files
 }
